@@ -5,7 +5,7 @@ from vlib.runner import Proof
 from vlib import ctx, astx
 from vlib.configure import REPO
 from vlib.cxx2c import Unsupported, Lowerer
-from lowering import L13, profile, find_member, find_lambdas, INST, INSTS
+from lowering import L13, profile, find_member, find_lambdas, closure_fields, closure_typedef, capture_map, INST, INSTS
 
 QT = os.path.join(VERIF, 'qtmodel')
 HERE = os.path.dirname(os.path.abspath(__file__))
@@ -98,7 +98,7 @@ def build(work, tier):
     F = {}      # cname -> (spec, text)
     order = []
 
-    def lower(cname, specf, decl=None, src=None, filt=None, name=None, this=None, rel=None, label=None, inst=None, captures=None, subst=None, lines_fallback=None, **kw):
+    def lower(cname, specf, decl=None, src=None, filt=None, name=None, this=None, rel=None, label=None, inst=None, captures=None, subst=None, lines_fallback=None, param_names=None, **kw):
         if specf.endswith('.in'):
             text = rd(specf)
             for k, v in dict({'@K@': INSTS[inst][1]}, **(subst or {})).items():
@@ -108,7 +108,7 @@ def build(work, tier):
             sp = Spec(b.subst(text))
         else:
             sp = b.spec(specf)
-        cls = type('L13_' + cname, (L13,), {'inst': inst, 'captures': captures or {}})
+        cls = type('L13_' + cname, (L13,), {'inst': inst, 'captures': captures or {}, 'param_names': param_names})
         t = Target(src or INST, filt or '', name or label, cname, this=this, parent=None, lowerer_cls=cls, **kw)
         t.rel = rel
         if decl is not None:
@@ -134,6 +134,7 @@ def build(work, tier):
     lower('TaskPrivate_resetResult', 'tp_resetResult.spec', src=CPP, filt='TaskPrivate::resetResult', name='resetResult', this='TaskPrivate', rel=TASK_H, label='QXmpp::Private::TaskPrivate::resetResult')
 
     # ------------------------------------------------------------------ the three instantiations of the templates
+    closure = None
     for inst, (targ, K) in INSTS.items():
         T = {'void': 'void', 'copy': 'QXmpp::SendResult', 'move': 'std::unique_ptr<int>'}[inst]
         tk, pr = 'QXmppTask_%s_' % inst, 'QXmppPromise_%s_' % inst
@@ -142,10 +143,17 @@ def build(work, tier):
         if len(lams) != 1:
             raise Unsupported('QXmppTask<T>::then contains %d lambdas (expected the one wrapper it stores)' % len(lams))
         ops = [c for c in lams[0]['inner'][0].get('inner', []) if c.get('kind') == 'CXXMethodDecl' and c.get('name') == 'operator()']
-        caps = [c for c in lams[0]['inner'][0].get('inner', []) if c.get('kind') == 'FieldDecl']
-        if len(ops) != 1 or len(caps) != 1:
-            raise Unsupported('then() wrapper lambda: expected one operator() and one capture')
-        lower(tk + 'then_wrapper', 'wrapper_void.spec' if inst == 'void' else 'wrapper_value.spec.in', decl=ops[0], this='closure', rel=TASK_H, label='QXmppTask<%s>::then::<stored lambda>' % T, inst=inst, captures={'f': 'self->f'})
+        if len(ops) != 1:
+            raise Unsupported('then() wrapper lambda: expected one operator()')
+        cf = closure_fields(L13({'inner': []}, 'closure', prof), lams[0])
+        if closure is None:
+            closure = cf
+        elif closure != cf:
+            raise Unsupported('the wrapper lambdas of the three instantiations of then() capture different things: %s vs %s' % (closure, cf))
+        if [nm for nm, ct, mode in cf if ct == 'ucont'] != ['f']:
+            raise Unsupported('then() wrapper lambda: the captured continuation is no longer called f (the contracts name it)')
+        lower(tk + 'then_wrapper', 'wrapper_void.spec' if inst == 'void' else 'wrapper_value.spec.in', decl=ops[0], this='closure', rel=TASK_H, label='QXmppTask<%s>::then::<stored lambda>' % T, inst=inst,
+              captures=capture_map(cf), param_names=['d', 'result'])
         lower(tk + 'then', 'then_void.spec' if inst == 'void' else 'then_value.spec.in', decl=d_then, this='QXmppTask', rel=TASK_H, label='QXmppTask<%s>::then' % T, inst=inst)
         lower(tk + 'isFinished', 'task_isFinished.spec', decl=find_member('QXmppTask', 'QXmppTask', targ, 'isFinished'), this='QXmppTask', rel=TASK_H, label='QXmppTask<%s>::isFinished' % T, inst=inst)
         lower(tk + 'ctor', 'task_ctor.spec', decl=find_member('QXmppTask', 'QXmppTask', targ, 'QXmppTask'), this='QXmppTask', rel=TASK_H, label='QXmppTask<%s>::QXmppTask' % T, inst=inst)
@@ -184,16 +192,18 @@ def build(work, tier):
     if set(f_) != {'context', 'continuation', 'result', 'freeResult', 'finished'}:
         raise Unsupported('TaskData members changed: %s (the contracts speak about context, continuation, result, freeResult, finished)' % f_)
     recs.append(r_)
-    r_, f_ = ctx.emit_record(os.path.join(REPO, CPP), 'TaskPrivate', 'TaskPrivate', 'TaskPrivate', prof)
+    rp_, f_ = ctx.emit_record(os.path.join(REPO, CPP), 'TaskPrivate', 'TaskPrivate', 'TaskPrivate', prof)
     if f_ != ['d']:
         raise Unsupported('TaskPrivate members changed: %s' % f_)
-    recs.append(r_)
     for cls in ('QXmppTask', 'QXmppPromise'):
         r_, f_ = ctx.emit_record(INST, cls, cls, cls, prof)
         if f_ != ['d']:
             raise Unsupported('%s<T> members changed: %s' % (cls, f_))
         recs.append(r_)
-    head = '#include "model.h"\n' + '\n'.join(recs) + '\n' + rd('specdefs.h') + '\n'
+    # TaskPrivate (a handle = pointer to the record) is needed by the closure struct, which model.h needs for std::function
+    ctd, cowns = closure_typedef(closure)
+    pre = 'typedef struct TaskData TaskData;\n' + rp_ + '\n' + ctd
+    head = '#define C13_CLOSURE_TYPEDEF ' + pre.replace('\n', ' ') + '\n#include "model.h"\n' + '\n'.join(recs) + '\n' + cowns + rd('specdefs.h') + '\n'
     env = default_init(prof) + rd('env.h')
 
     # the re-entrant call of then() from inside a continuation: same contract under another name, never a body (always replaced)
@@ -330,6 +340,7 @@ def build(work, tier):
             'A-NEW `new T(v)` is a fresh heap box holding v, `delete` releases it (malloc/free, so CBMC checks every access to a box for use-after-free and double free); ghost counter gh_boxes_live',
             'A-SHARED std::shared_ptr<TaskData> is the pointer to the one shared record, every copy of TaskPrivate/QXmppTask/QXmppPromise points to it; make_shared value-initialises the record from its real default member initialisers; reference counting / release of the record not modelled',
             'A-QPOINTER QPointer<const QObject>::isNull() <=> never set, set to nullptr, or the object destroyed; "destroyed" is a ghost flag for one arbitrary witness object and an uninterpreted predicate for all others; QObject is opaque',
+            'A-OWNERS the owners of the shared record are the promise, the task handles and every by-value copy of a TaskPrivate (= std::shared_ptr copy) held in a stored closure; the record and the continuation stored in it are released when no owner is left (release itself trusted); the closure struct and CLOSURE_OWNS are generated from the wrapper lambda\'s real capture list (by-reference and raw-pointer captures are non-owning; a capture of an unmodelled type such as std::weak_ptr is exit 2)',
             'A-FUNCTION std::function<void(TaskPrivate&, void*)> is a callable handle: empty, or a copy of the closure of the then() wrapper lambda (one tag per T); copy-assign copies, operator bool = non-empty, operator() runs the stored closure in place (the lowered real lambda body); invoking an empty one is reported as a violation; destruction of the old target on assignment not modelled',
             'function pointer TaskData::freeResult: null or the captureless deleter lambda of QXmppPromise<T>\'s constructor (its lowered body is what a call dispatches to)',
             'environment: the user\'s continuation only counts its run and records the value; it may re-enter by attaching ONE more continuation (a different attachment) to a captured copy of its task (ghost hook after the call; the nested then() is taken by its contract = induction on the nesting); the nested continuation does not attach again',
